@@ -187,6 +187,31 @@ def _run_in_child(spec):
            'step_budget': spec['budget']}
     out = {'status': 'ok', 'results': {}, 'trace_len': 0}
     shim = None
+    # The simulated machine has a finite address space (runner.MEMORY_LIMIT_BYTES): a failing allocation is a fault it injects,
+    # and whether a request of several GB (a damaged length field handed to read()) fails depends on what the process holds
+    # already.  Every MemoryError raised is noted (in this process and in the pool workers forked from it) so that the oracle
+    # can relax, narrowly, for the damaged files of such a run.
+    mem_note = os.path.join(root, '.alloc-failed-' + spec['name'])
+    try:
+        import sys as _sys
+        mon_ = _sys.monitoring
+
+        def _on_raise(code, offset, exc, _p=mem_note):
+            if isinstance(exc, MemoryError):
+                try:
+                    fd_ = os.open(_p, os.O_WRONLY | os.O_CREAT | os.O_APPEND, 0o600)
+                    os.write(fd_, b'x')
+                    os.close(fd_)
+                except OSError:
+                    pass
+        try:
+            mon_.use_tool_id(5, 'verif-alloc')
+        except ValueError:
+            pass
+        mon_.register_callback(5, mon_.events.RAISE, _on_raise)
+        mon_.set_events(5, mon_.events.RAISE)
+    except Exception:
+        pass
     fs.install()
     try:
         args = (cfg['reduce'], make_slice(cfg), set(cfg['channels']), cfg['width'], cfg['fmt'])
@@ -262,6 +287,10 @@ def _run_in_child(spec):
         fs.uninstall()
         if shim is not None:
             shim.terminate_all()
+    try:
+        out['alloc_failures'] = os.path.getsize(mem_note)
+    except OSError:
+        out['alloc_failures'] = 0
     trace = sim['trace'] if run['mode'] == 'pool' else fs.log
     out['trace_len'] = len(trace)
     out['trace_digest'] = seeds.digest(trace)
